@@ -202,7 +202,9 @@ class ComplementaryTableInfo:
         if dataframe_state.equals(self._last_dataframe_state):
             return
         self._update_columns(df)
-        self._last_dataframe_state = dataframe_state
+        # columns of an empty frame are neither registered nor validated (see _update_columns),
+        # so an empty frame must not be remembered as validated
+        self._last_dataframe_state = None if df.empty else dataframe_state
 
     @property
     def units(self) -> List[str]:
